@@ -164,6 +164,7 @@ func props() []prop {
 			DesignRef:   "DESIGN.md §4 C05",
 			Assumptions: with("hooks (Prelaunch/PreRestart/Restarted) are not messages"),
 			Units: []unit{
+				{Check: "launchwindow", Pkg: "internal/actor", Instr: []string{"internal/actor/context.go"}, Shards: [2]int{4, 16}, Timeout: [2]time.Duration{6 * min, 20 * min}, CrashKey: "c05-crash", HangKind: "c09-hang", OnlyKinds: []string{"c05-", "harness-"}},
 				{Check: "lifecycle", Pkg: "internal/actor", Shards: [2]int{8, 16}, Timeout: [2]time.Duration{6 * min, 40 * min}, CrashKey: "c05-crash", OnlyKinds: []string{"c05-", "harness-"}},
 				{Check: "histories", Pkg: "internal/actor", Shards: [2]int{8, 16}, Timeout: [2]time.Duration{6 * min, 40 * min}, OnlyKinds: []string{"c05-"}},
 				{Check: "supmatrix", Pkg: "internal/actor", Shards: [2]int{8, 16}, Timeout: [2]time.Duration{5 * min, 30 * min}, OnlyKinds: []string{"c05-"}},
